@@ -14,12 +14,8 @@ import (
 	"time"
 
 	"github.com/markkurossi/mpc/circuit"
-	"github.com/markkurossi/mpc/compiler"
-	"github.com/markkurossi/mpc/compiler/utils"
 	"github.com/markkurossi/mpc/env"
 	"github.com/markkurossi/mpc/ot"
-	"github.com/markkurossi/mpc/p2p"
-	"sync/atomic"
 )
 
 func init() { register("c16", runC16) }
@@ -47,7 +43,9 @@ type fault struct {
 	off2  int          // pair: second offset
 	count int          // burstff: length
 	must  bool         // never sub-sampled
-	setv  map[int]byte // setbytes: replacement bytes by absolute offset
+	setv  map[int]byte // setbytes / replay: replacement bytes by absolute offset
+	off3  int          // swap: end of the second range ([off,off2) and [off2,off3) change places)
+	ins   []byte       // insert: the bytes inserted before the byte at off
 }
 
 func (f fault) apply(g2e, e2g *fragQueue) {
@@ -74,8 +72,12 @@ func (f fault) apply(g2e, e2g *fragQueue) {
 		for k := 0; k < 16; k++ {
 			q.set[f.off+k] = f.mask
 		}
-	case "setbytes":
+	case "setbytes", "replay":
+		// replay: the bytes of a message replaced by the bytes at the same place of an EARLIER
+		// session's transcript (other session key, labels and OT randomness)
 		q.set = f.setv
+	case "delete", "insert", "swap":
+		// stream edits (the rest of the stream shifts): see c16Editor in c16doors.go
 	case "dup16":
 		// the label at off2 (earlier in the stream) copied over the label at off
 		q.dup = map[int]int{}
@@ -119,13 +121,18 @@ func runC16(c *Ctx) error {
 		crash    string
 		basefail string
 	}
-	events := make([][]c16Event, ncirc+3)
-	errs := make([]error, ncirc+3)
+	nchild := ncirc + 3 + c16NumDoorChildren
+	events := make([][]c16Event, nchild)
+	errs := make([]error, nchild)
 	var wg sync.WaitGroup
-	for ci := 0; ci <= ncirc+2; ci++ {
+	for ci := 0; ci < nchild; ci++ {
 		wg.Add(1)
 		go func(ci int) {
 			defer wg.Done()
+			t0 := time.Now()
+			if os.Getenv("C16_TIMING") != "" {
+				defer func() { fmt.Fprintf(os.Stderr, "c16 child %d: %.1fs, %d events\n", ci, time.Since(t0).Seconds(), len(events[ci])) }()
+			}
 			start := 0
 			for restarts := 0; restarts < 400; restarts++ {
 				// address-space limit: a corrupted count that asks for gigabytes kills the
@@ -133,6 +140,9 @@ func runC16(c *Ctx) error {
 				cmd := exec.Command("sh", "-c", `ulimit -v 3000000; exec "$0" "$@"`, exe, "c16", "-seed", fmt.Sprint(c.Seed), "-tier", c.Tier, "-out", filepath.Join(c.OutDir, fmt.Sprintf("child%d", ci)))
 				cmd.Stderr = nil
 				cmd.Env = append(os.Environ(), "C16_CHILD=1", fmt.Sprintf("C16_CIRC=%d", ci), fmt.Sprintf("C16_START=%d", start))
+				if ci >= ncirc+3 {
+					cmd.Env = append(cmd.Env, c16DoorEnv(ci-ncirc-3)...)
+				}
 				out, err := cmd.StdoutPipe()
 				if err != nil {
 					errs[ci] = err
@@ -187,7 +197,7 @@ func runC16(c *Ctx) error {
 		}(ci)
 	}
 	wg.Wait()
-	for ci := 0; ci <= ncirc+2; ci++ {
+	for ci := 0; ci < nchild; ci++ {
 		if errs[ci] != nil {
 			return errs[ci]
 		}
@@ -242,13 +252,27 @@ func c16Account(c *Ctx, ci int, rec *c16Rec) {
 
 func c16Child(c *Ctx) error {
 	ncirc := c.N(3, 10)
-	budget := c.N(700, 60000) // corrupted sessions in total
+	budget := c.N(560, 60000) // corrupted sessions in total (the standing fault catalogue)
 	kinds := []otMaker{otKinds[0], otKinds[1]}
 	per := budget / ncirc
 	want_ci, _ := strconv.Atoi(os.Getenv("C16_CIRC"))
 	startAt, _ := strconv.Atoi(os.Getenv("C16_START"))
 	w := bufio.NewWriter(os.Stdout)
 	defer w.Flush()
+	if want_ci >= ncirc+3 {
+		// the door children (c16doors2.go); the last two take over the second half of the two
+		// longest standing children (handshake sweeps, wide-input stream) so that they run in parallel
+		switch d := want_ci - ncirc - 3; d {
+		case c16NumDoorChildren - 2:
+			c16Half = 1
+			return c16StreamChild(c, w, startAt, 1)
+		case c16NumDoorChildren - 1:
+			c16Half = 1
+			return c16StreamChild(c, w, startAt, 2)
+		default:
+			return c16DoorChild(c, w, startAt, d)
+		}
+	}
 	if want_ci >= ncirc {
 		// ncirc: byte faults on a streaming session; ncirc+1: handshake sweeps
 		return c16StreamChild(c, w, startAt, want_ci-ncirc)
@@ -258,13 +282,46 @@ func c16Child(c *Ctx) error {
 		if ci != want_ci {
 			continue
 		}
+		// circuit 0: ONE pair of OT objects, one env.Config and one entropy reader serve all the
+		// sessions of the child (as the evaluator loop of apps/garbled keeps its OT object over
+		// connections), the sessions after aborted ones included
+		sp := c16Spec{kind: kinds[ci%len(kinds)], per: per, shortReads: ci%2 == 1, longLived: ci == 0, frag: []int{0, 0, 5}[ci%3], part: ci}
+		if err := c16CircuitChild(c, w, r, startAt, sp); err != nil {
+			return err
+		}
+	}
+	fmt.Fprintln(w, "DONE")
+	_ = big.NewInt
+	return nil
+}
+
+// c16Spec: how the sessions of one whole-circuit child are set up.
+type c16Spec struct {
+	kind       otMaker
+	per        int              // session budget of the standing catalogue (sub-sampled to it)
+	shortReads bool             // entropy source handing out at most 32 bytes per Read
+	longLived  bool             // one pair of OT objects / one env.Config for all sessions (CO, RSA)
+	frag       int              // maximal read fragment of the transport (0: whatever is there)
+	verbose    bool             // Garbler / Evaluator verbose flag
+	circ       *circuit.Circuit // nil: generated
+	editsOnly  bool             // only the edit / replay faults and a thin sample of the standing catalogue
+	part       int              // standing children, quick tier: which third of the edit faults
+}
+
+func c16CircuitChild(c *Ctx, w *bufio.Writer, r *RNG, startAt int, sp c16Spec) error {
+	{
+		kind := sp.kind
+		per := sp.per
 		cseed := r.s
 		opts := GenOpts{MinIn: 2, MaxIn: 6, MinGates: 5, MaxGates: 14, MaxOut: 4, Overwrite: false, TwoParty: true}
 		circ := GenCircuit(r, opts)
+		if sp.circ != nil {
+			circ = sp.circ
+		}
 		// every other circuit: the configured entropy source (env.Config.Rand) hands out at most
 		// 32 bytes per Read call (legal for an io.Reader); the garbler has at least 4 input
 		// wires, all 1, so that the label sent for each of them is L1
-		shortReads := ci%2 == 1
+		shortReads := sp.shortReads
 		if shortReads {
 			opts.MinIn, opts.MaxIn = 7, 9
 			for circ = GenCircuit(r, opts); circ.Inputs[0].Type.Bits < 4; {
@@ -274,7 +331,6 @@ func c16Child(c *Ctx) error {
 		n0 := int(circ.Inputs[0].Type.Bits)
 		n1 := int(circ.Inputs[1].Type.Bits)
 		no := circ.Outputs.Size()
-		kind := kinds[ci%len(kinds)]
 		x := make([]bool, n0)
 		y := make([]bool, n1)
 		for k := range x {
@@ -283,23 +339,57 @@ func c16Child(c *Ctx) error {
 		for k := range y {
 			y[k] = r.Bool()
 		}
+		// inputs whose outputs contain a 1 (and a 0 when there are several output bits): an
+		// unknown returned label that were decoded as a default value then shows in the result
+		for try := 0; try < 24; try++ {
+			ob := TruthEval(circ, append(append([]bool(nil), x...), y...))
+			ones := 0
+			for _, b := range ob {
+				if b {
+					ones++
+				}
+			}
+			if ones > 0 && (ones < len(ob) || len(ob) == 1) {
+				break
+			}
+			for k := range x {
+				x[k] = r.Bool() || shortReads
+			}
+			for k := range y {
+				y[k] = r.Bool()
+			}
+		}
 		xy := append(append([]bool(nil), x...), y...)
 		want := JoinBig(circ, TruthEval(circ, xy))
 		sessSeed := r.U64()
-		run := func(f *fault) (*sessionResult, *blockLog) {
-			sr := NewRNG(sessSeed)
+		// long-lived objects: ONE env.Config (and entropy reader) and, for the OT implementations
+		// that can be initialised again (CO, RSA), one OT object per party for all the sessions
+		// of this child; their randomness is re-seeded per session so that the sessions of the
+		// fault list share the honest transcript up to the fault
+		llCfg := &env.Config{}
+		llG, llE := &c16Reseed{}, &c16Reseed{}
+		var llOtG, llOtE ot.OT
+		if sp.longLived {
+			llOtG, llOtE = kind.mk2(llG), kind.mk2(llE)
+		}
+		session := func(seed uint64, yv []bool, f *fault) (*sessionResult, *blockLog) {
+			sr := NewRNG(seed)
 			grand := &blockLog{r: sr.Fork(), skipKey: true}
 			if shortReads {
 				grand.maxRead = 32
 			}
-			var tw func(g2e, e2g *fragQueue)
-			if f != nil {
-				tw = f.apply
+			o := c16SessOpts{circ: circ, gIn: bitsToBig(x), eIn: bitsToBig(yv), frag: sp.frag, f: f, timeout: 5 * time.Second, verbose: sp.verbose}
+			if sp.longLived {
+				llCfg.Rand = grand
+				llG.r, llE.r = sr.Fork(), sr.Fork()
+				o.cfg, o.otG, o.otE = llCfg, llOtG, llOtE
+			} else {
+				o.cfg, o.otG, o.otE = &env.Config{Rand: grand}, kind.mk(sr.Fork()), kind.mk(sr.Fork())
 			}
-			res := runSession(circ, bitsToBig(x), bitsToBig(y), grand, kind.mk(sr.Fork()), kind.mk(sr.Fork()),
-				0, sr.Fork(), tw, 5*time.Second)
-			return res, grand
+			o.rng = sr.Fork()
+			return c16Session(o), grand
 		}
+		run := func(f *fault) (*sessionResult, *blockLog) { return session(sessSeed, y, f) }
 		// probe: a clean session with the complemented evaluator input (see below)
 		yAlt := make([]bool, n1)
 		for k := range y {
@@ -307,12 +397,18 @@ func c16Child(c *Ctx) error {
 		}
 		wantAlt := JoinBig(circ, TruthEval(circ, append(append([]bool(nil), x...), yAlt...)))
 		probes, maxProbes := 0, c.N(25, 400)
+		if sp.longLived {
+			maxProbes = c.N(60, 800)
+		}
 		probe := func() string {
-			sr := NewRNG(sessSeed ^ 0x5bd1e995)
-			res := runSession(circ, bitsToBig(x), bitsToBig(yAlt), &blockLog{r: sr.Fork(), skipKey: true}, kind.mk(sr.Fork()), kind.mk(sr.Fork()),
-				0, sr.Fork(), nil, 5*time.Second)
+			res, _ := session(sessSeed^0x5bd1e995, yAlt, nil)
 			if res.gErr == nil && res.gRes != nil && bigsString(res.gRes) != bigsString(wantAlt) {
 				return bigsString(res.gRes)
+			}
+			if res.gErr != nil || res.stalled {
+				// a clean session after an aborted one should also SUCCEED (not part of C16's
+				// claim — an error is never a wrong result: made visible in the histogram only)
+				return "!"
 			}
 			return ""
 		}
@@ -403,6 +499,36 @@ func c16Child(c *Ctx) error {
 				}
 			}
 		}
+		if sp.editsOnly {
+			// a thin sample of the standing catalogue (every kind stays represented)
+			var thin []fault
+			for k, f := range faults {
+				f.must = false
+				if k%((len(faults)+per-1)/per) == 0 {
+					f.must = true
+				}
+				thin = append(thin, f)
+			}
+			faults = thin
+		}
+		// stream edits and replays (c16doors.go); the earlier session: same parties and circuit,
+		// the complemented evaluator input, other randomness
+		earlier, _ := session(sessSeed^0x2545f491, yAlt, nil)
+		edits := c16EditFaults(circ, base.g2e, base.e2g, earlier, inOff, tail0, c.N(2, 40))
+		if !sp.editsOnly && !c.Thorough() {
+			// quick tier, standing children: each takes another third of the list
+			var kept []fault
+			for k, f := range edits {
+				if k%3 == sp.part%3 {
+					kept = append(kept, f)
+				}
+			}
+			edits = kept
+		}
+		for k := range edits {
+			edits[k].must = true
+		}
+		faults = append(faults, edits...)
 		// always include all positions of the returned output labels and of the result message
 		step := 1
 		if len(faults) > per {
@@ -411,7 +537,7 @@ func c16Child(c *Ctx) error {
 		tail := le - 16*no
 		dims, gs := CircuitSX(circ)
 		for fi, f := range faults {
-			inTail := f.dir == "e2g" && f.off >= tail-8
+			inTail := f.dir == "e2g" && f.off >= tail-8 && !sp.editsOnly
 			if fi%step != 0 && !inTail && !f.must {
 				continue
 			}
@@ -431,7 +557,12 @@ func c16Child(c *Ctx) error {
 				// the session before this one was aborted on the evaluator's side: a CLEAN session
 				// on the same *Circuit value with another evaluator input must be unaffected by it
 				probes++
-				if bad := probe(); bad != "" {
+				bad := probe()
+				if bad == "!" {
+					c16Emit(w, &c16Rec{Fi: fi, Dir: f.dir, Kind: "clean-session-after-aborted-one:did-not-succeed", Off: f.off, Circuit: circuitText(circ), Outcome: "error"})
+					bad = ""
+				}
+				if bad != "" {
 					rec2 := c16Rec{Fi: fi, Dir: f.dir, Kind: "clean-session-after-aborted-one", Off: f.off, Circuit: circuitText(circ), Outcome: "result"}
 					rec2.Wrong = &c16Replay{Seed: c.Seed, Circuit: circuitText(circ), OT: kind.name, X: bitsString(x), Y: bitsString(yAlt),
 						Dir: f.dir, Offset: f.off, Kind: "clean session (evaluator input " + bitsString(yAlt) + ") on the same *Circuit right after a session with evaluator input " + bitsString(y) + " that was aborted by fault " + f.kind,
@@ -489,8 +620,6 @@ func c16Child(c *Ctx) error {
 			emit()
 		}
 	}
-	fmt.Fprintln(w, "DONE")
-	_ = big.NewInt
 	return nil
 }
 
@@ -500,6 +629,9 @@ const c16StreamProgram = "package main\nfunc main(a, b uint8) (uint8, bool) {\n\
 
 var dumpHdr bool
 
+// c16Half: which half (by running index) of the handshake sweeps / wide-input faults this child runs.
+var c16Half = 0
+
 func c16RunStream(seed uint64, av, bv int, f *fault) (gRes []*big.Int, gErr error, stalled bool, lg, le int) {
 	return c16RunStreamProg(seed, c16StreamProgram, []string{fmt.Sprint(av)}, []string{fmt.Sprint(bv)}, f)
 }
@@ -508,95 +640,7 @@ func c16RunStream(seed uint64, av, bv int, f *fault) (gRes []*big.Int, gErr erro
 var c16LastG2E []byte
 
 func c16RunStreamProg(seed uint64, src string, gIn, eIn []string, f *fault) (gRes []*big.Int, gErr error, stalled bool, lg, le int) {
-	sr := NewRNG(seed)
-	ga, ea, g2e, e2g := newDuplexPair(sr, 0)
-	if f != nil {
-		f.apply(g2e, e2g)
-	}
-	gConn := p2p.NewConn(ga)
-	eConn := p2p.NewConn(ea)
-	params := utils.NewParams()
-	defer params.Close()
-	params.Config = &env.Config{Rand: sr.Fork()}
-	type out struct {
-		vals []*big.Int
-		err  error
-	}
-	gch := make(chan out, 1)
-	ech := make(chan out, 1)
-	var gDone, eDone atomic.Bool
-	go func() {
-		defer func() {
-			if p := recover(); p != nil {
-				gDone.Store(true)
-				gch <- out{nil, fmt.Errorf("panic: %v", p)}
-			}
-		}()
-		_, vals, err := compiler.New(params).Stream(gConn, ot.NewCO(sr.Fork()), "c16", strings.NewReader(src),
-			gIn, nil)
-		gDone.Store(true)
-		gch <- out{vals, err}
-	}()
-	go func() {
-		defer func() {
-			if p := recover(); p != nil {
-				eDone.Store(true)
-				ech <- out{nil, fmt.Errorf("panic: %v", p)}
-			}
-		}()
-		_, vals, err := circuit.StreamEvaluator(eConn, ot.NewCO(sr.Fork()), eIn, nil, false)
-		eDone.Store(true)
-		ech <- out{vals, err}
-	}()
-	var gout *out
-	deadline := time.Now().Add(10 * time.Second)
-	idle := 0
-	for gout == nil {
-		select {
-		case o := <-gch:
-			gout = &o
-		case <-time.After(2 * time.Millisecond):
-		}
-		if gout != nil {
-			break
-		}
-		if (gDone.Load() || e2g.idle()) && (eDone.Load() || g2e.idle()) {
-			idle++
-		} else {
-			idle = 0
-		}
-		if idle >= 30 || time.Now().After(deadline) {
-			stalled = true
-			break
-		}
-	}
-	ga.Close()
-	ea.Close()
-	go gConn.Close()
-	go eConn.Close()
-	if gout == nil {
-		select {
-		case o := <-gch:
-			gout = &o
-		case <-time.After(2 * time.Second):
-			return nil, fmt.Errorf("garbler did not return after abort"), true, 0, 0
-		}
-	}
-	g2e.mu.Lock()
-	lg = len(g2e.log)
-	c16LastG2E = append(c16LastG2E[:0], g2e.log...)
-	if dumpHdr {
-		n := lg
-		if n > 200 {
-			n = 200
-		}
-		fmt.Fprintf(os.Stderr, "%q\n", g2e.log[:n])
-	}
-	g2e.mu.Unlock()
-	e2g.mu.Lock()
-	le = len(e2g.log)
-	e2g.mu.Unlock()
-	return gout.vals, gout.err, stalled, lg, le
+	return c16RunStreamOpt(seed, src, gIn, eIn, f, nil)
 }
 
 func c16StreamChild(c *Ctx, w *bufio.Writer, startAt int, part int) error {
@@ -745,7 +789,7 @@ func c16StreamChild(c *Ctx, w *bufio.Writer, startAt int, part int) error {
 		for off := sw.lo; off < sw.hi && off < slg; off++ {
 			for _, m := range sw.masks {
 				fi++
-				if fi < startAt {
+				if fi < startAt || fi%2 != c16Half {
 					continue
 				}
 				f := fault{dir: "g2e", off: off, kind: sw.kind, mask: m}
@@ -833,7 +877,7 @@ func c16WideInputs(c *Ctx, w *bufio.Writer, startAt int, seed uint64) error {
 	fi := 1 << 20
 	for _, x := range wfs {
 		fi++
-		if fi < startAt {
+		if fi < startAt || (fi/2)%2 != c16Half {
 			continue
 		}
 		v := (int(base[x.off])<<8 | int(base[x.off+1])) + x.delta
